@@ -60,7 +60,13 @@ func (buf *BipBuffer) Claim(n int) []byte {
 		claimHead int
 		freeSpace int
 	)
-	if buf.Wrapped() {
+	if buf.Committed() == 0 {
+		// Nothing is queued: rebase the empty buffer so that up to its full size can be claimed.
+		buf.head, buf.tail = 0, 0
+		buf.wrappedHead, buf.wrappedTail = 0, 0
+		claimHead = 0
+		freeSpace = buf.Size()
+	} else if buf.Wrapped() {
 		claimHead = buf.wrappedTail
 		freeSpace = buf.head - buf.wrappedTail
 	} else {
